@@ -403,7 +403,7 @@ def op_name(n: ast.AST) -> str:
 # failing input classes listed as known findings (the other names computed below are repaired: listed as fixed)
 UNDERSTOOD = {'dict-get-missing-key', 'list-literal-class-dedup', 'union-of-subclasses-attribute', 'ternary-union-of-containers',
 	'tuple-slice-nonliteral-bounds', 'abs-of-bool', 'min-max-mixed-numeric', 'list-of-dict-items', 'boolop-nonbool-operands', 'explicit-init-call',
-	'generic-method-on-indirect-subclass', 'generic-method-nested-type-argument', 'operator-operand-indirect-subclass', 'shift-reflected-user-operand', 'spread-first-type-argument', 'dict-literal-empty-first-value'}
+	'generic-method-on-indirect-subclass', 'generic-method-nested-type-argument', 'shift-reflected-user-operand', 'spread-first-type-argument', 'dict-literal-empty-first-value'}
 
 CONTAINER_HEADS = ('list', 'dict', 'tuple')
 ALIAS_PREFIX = re.compile(r'\b[A-Za-z_][A-Za-z_0-9]*=')
